@@ -63,6 +63,7 @@ const (
 	ReplyError
 	ReplyNever
 	ReplyLate // held until ReleaseLate is called
+	ReplyLateError // an error answer, held until ReleaseLate is called (answers are released in arrival order)
 )
 
 type ModelServer struct {
@@ -279,6 +280,14 @@ func (s *ModelServer) sessionLoop(se *Session) {
 				delete(se.Proxies, v.ProxyName)
 				msg.WriteMsg(se.rw, &msg.NewProxyResp{ProxyName: v.ProxyName, Error: "port already used"})
 			case ReplyNever:
+			case ReplyLateError:
+				delete(se.Proxies, v.ProxyName)
+				name := v.ProxyName
+				s.late = append(s.late, func() {
+					if se.Live {
+						msg.WriteMsg(se.rw, &msg.NewProxyResp{ProxyName: name, Error: "port already used"})
+					}
+				})
 			case ReplyLate:
 				name := v.ProxyName
 				s.late = append(s.late, func() {
